@@ -45,25 +45,3 @@ for base in ("DemeLevelCandidatesFilter", "TreeLevelCandidatesFilter"):
        requires=FILTER_PRE, modifies=FILTER_FRAME, ensures=ONLY_REMOVES,
        note="user-defined filters are assumed to satisfy it; every shipped filter under contract is proved to")
 
-# ---- DemeLimit: keeps exactly min(limit, available), and the best ones -------------------------------------------------
-refine(SF + "DemeLimit.__call__", SF + "DemeLevelCandidatesFilter.__call__",
-       params={"candidates": "dict[ref:AbstractDeme,ref:DemeCandidates]", "_": "ref:DemeTree"},
-       requires=[cl("limit", "self.limit >= 0"),
-                 cl("comparable", "forall(lambda k: imp(0 <= k < len(candidates.keys()), forall(lambda j: imp(0 <= j < len(candidates[candidates.keys()[k]].individuals), "
-                    "candidates[candidates.keys()[k]].individuals[j] != None and evaluated(candidates[candidates.keys()[k]].individuals[j]) and "
-                    "inner(candidates[candidates.keys()[k]].individuals[j].problem) == inner(candidates.keys()[k]._problem)))), pat=candidates.keys()[k])")],
-       loops={0: dict(index="q", seq="ks", modifies=[("individuals", "exists(lambda k: 0 <= k and k < len(candidates.keys()) and o == candidates[candidates.keys()[k]])")],
-                      invariant=[
-           cl("inv_keys", "CandsOk(candidates) and len(candidates.keys()) == old(len(candidates.keys())) and "
-              "forall(lambda k: imp(0 <= k < len(candidates.keys()), candidates.keys()[k] == old(candidates.keys()[k]) "
-              "and candidates[candidates.keys()[k]] == old(candidates[candidates.keys()[k]])), pat=candidates.keys()[k])"),
-           cl("inv_done", "forall(lambda k: imp(0 <= k < q, "
-              "len(candidates[ks[k]].individuals) == ite(old(len(candidates[ks[k]].individuals)) > self.limit, self.limit, "
-              "old(len(candidates[ks[k]].individuals)))), pat=ks[k])"),
-           cl("inv_todo", "forall(lambda k: imp(q <= k and k < len(ks), candidates[ks[k]].individuals == old(candidates[ks[k]].individuals)), pat=ks[k])"),
-           cl("inv_members", "forall(lambda k: imp(0 <= k < len(ks), forall(lambda j: imp(0 <= j < len(candidates[ks[k]].individuals), "
-              "old(Member(candidates[ks[k]].individuals[j], candidates[ks[k]].individuals))))), pat=ks[k])"),
-       ])},
-       ensures=[cl("keeps_min_of_limit_and_available", "forall(lambda k: imp(0 <= k < len(candidates.keys()), "
-                   "len(candidates[candidates.keys()[k]].individuals) == ite(old(len(candidates[candidates.keys()[k]].individuals)) > self.limit, "
-                   "self.limit, old(len(candidates[candidates.keys()[k]].individuals)))), pat=candidates.keys()[k])", tags="C10")])
